@@ -627,3 +627,20 @@ Proof.
     + injection Hi as Hi. apply (Hall 1 ltac:(lia)). exact Hi.
   - destruct (is_digit c0); [|discriminate]. injection Hi as Hi. apply (Hall 10 ltac:(lia)). exact Hi.
 Qed.
+
+(* ------------------------------------------------------------------ raw line breaks *)
+Definition no_raw_breaks (s : str) : bool := forallb (fun c => negb ((c =? 10) || (c =? 13))) s.
+
+Lemma normalize_no_breaks : forall nl s, no_raw_breaks s = true -> normalize nl s = s.
+Proof.
+  induction s as [|c s IH]; intro H; [reflexivity|]. cbn [no_raw_breaks forallb] in H.
+  apply andb_prop in H as [Hc Hs]. apply negb_true_iff, orb_false_iff in Hc as [E10 E13].
+  apply N.eqb_neq in E10, E13.
+  assert (Hn : forall t, normalize nl (c :: t) = c :: normalize nl t).
+  { intro t. destruct c as [|p]; [reflexivity|].
+    do 4 (destruct p as [p|p|]; try reflexivity); try lia; destruct p; try reflexivity; lia. }
+  rewrite Hn. f_equal. exact (IH Hs).
+Qed.
+
+Lemma convert_config_independent : forall nl nl' body, no_raw_breaks body = true -> convert nl body = convert nl' body.
+Proof. intros nl nl' body H. unfold convert. now rewrite !normalize_no_breaks. Qed.
